@@ -133,12 +133,13 @@ def decide(pid, tier, summaries, t0, seed):
         cov["distinct_nontrivial"] += s["sets"]["nontrivial"]
         cov["distinct_outcomes"] += s["sets"]["outcomes"]
         cov["samples"] += s["samples"][:3]
-        ok = s["complete"] and not s["set_overflow"]
-        exhaustive = exhaustive and ok
+        # a saturated counting table only makes the distinct-* figures lower bounds; every case was still run
+        exhaustive = exhaustive and s["complete"]
         name = s["cmd"][0].split("/")[-1].rsplit("-", 1)[0]
         cov["parts"][name] = {
             "cases_in_space": s["ncases"], "cases_done": s["cases_done"], "completed_below": s["completed_below"],
             "complete": s["complete"], "deadline_hit": s["deadline_hit"], "counters": c, "sets": s["sets"],
+            "distinct_counts_are_lower_bounds": bool(s["set_overflow"]),
             "args": [a for a in s["cmd"][1:] if not a.startswith(("--out", "--workdir"))],
             "wall_s": round(s["part_wall_s"], 2), "outcome_texts": s["outcome_texts"][:40]}
     cov["exhaustive"] = exhaustive
